@@ -1,5 +1,6 @@
 import DilithiumVerif.Impl.Ntt
 import DilithiumVerif.Lemmas.Basic
+import DilithiumVerif.Lemmas.NttBound
 /-
   C13 — NTT-based multiplication equals negacyclic polynomial multiplication mod q.
   Part 1: kernel-checked facts about the tables regenerated from src/ntt.rs.
@@ -38,5 +39,30 @@ theorem f_correct : (256 * Gen.F - R * R) % q = 0 := by decide
     Stated through the generator: ζ_1 = 1753^128, and 1753 has order 512 -/
 theorem zeta1_is_power : (zm 1 - (1753 ^ 128 % q) * R) % q = 0 := by decide +kernel
 theorem order512 : (1753 : Int) ^ 256 % q = q - 1 := by decide +kernel
+
+/-! ## Part 2: no intermediate overflow, growth bounds (checked-build semantics, all inputs in the documented range) -/
+
+/-- Forward transform on coefficients in (−q, q): no intermediate value overflows (the checked build does not
+    panic, the wrapping build computes the same values) and every output is below 9q in magnitude. -/
+theorem ntt_no_overflow_9q (a : List Int) (hl : a.length = 256) (ha : ∀ x ∈ a, -Q < x ∧ x < Q) :
+    ∃ r, ntt a = .ok r ∧ r.length = 256 ∧ ∀ x ∈ r, -(9 * Q) < x ∧ x < 9 * Q := by
+  have hq : Q = 8380417 := by decide
+  obtain ⟨r, h1, h2, h3⟩ := ntt_bound a hl Q (by omega) (by omega) ha
+  exact ⟨r, h1, h2, fun x hx => by have := h3 x hx; omega⟩
+
+/-- the general growth statement: inputs below B give outputs below B + 8q as long as B + 8q ≤ 2^31 -/
+theorem ntt_growth (a : List Int) (hl : a.length = 256) (B : Int) (hB0 : 0 < B) (hB : B + 8 * Q ≤ 2147483648)
+    (ha : ∀ x ∈ a, -B < x ∧ x < B) :
+    ∃ r, ntt a = .ok r ∧ r.length = 256 ∧ ∀ x ∈ r, -(B + 8 * Q) < x ∧ x < B + 8 * Q :=
+  ntt_bound a hl B hB0 hB ha
+
+/-- Inverse transform on coefficients in (−q, q): no intermediate value overflows (partial sums stay below
+    256q < 2^31) and every output is below q in magnitude. -/
+theorem invntt_no_overflow (a : List Int) (hl : a.length = 256) (ha : ∀ x ∈ a, -Q < x ∧ x < Q) :
+    ∃ r, invntt_tomont a = .ok r ∧ r.length = 256 ∧ ∀ x ∈ r, -Q < x ∧ x < Q :=
+  invntt_bound a hl ha
+
+/-- the margin of the inverse transform is thin: 256·q = 2^31 − 2096896 -/
+theorem invntt_margin : 256 * Q = 2147483648 - 2096896 := by decide
 
 end DV.C13
